@@ -807,6 +807,7 @@ func runC07(c *Ctx) {
 	ruleNilNilDeref(c, "R07.e")
 	ruleNoReentrantLock(c, buildSyncModel(c), "R07.f")
 	ruleNoWriteUnderReadLock(c, "R07.g")
+	ruleClientSizedAllocations(c, "R07.h")
 	c.assume("handlers do not call os.Exit themselves; stack exhaustion and out-of-memory are not recoverable and not decided")
 }
 
@@ -1141,4 +1142,90 @@ func unguardedDeref(c *Ctx, v ssa.Value, seen map[ssa.Value]bool) string {
 		}
 	}
 	return ""
+}
+
+// ruleClientSizedAllocations: R07.h — a slice or map sized by an integer that came from the
+// client (a count, an index, a limit handed to a handler) must be bounded by a constant or by
+// the length of existing data first: `make([]T, 0, count)` with count = 2^43 is not a panic a
+// recover can stop, it is a fatal out-of-memory error that takes the process down.
+func ruleClientSizedAllocations(c *Ctx, rid string) {
+	c.rule(rid, "in the framework's executors/helpers and in the example store, every make([]T, n[, m]) / make(map, n) whose size derives from an integer parameter (not from the length of existing data) is dominated by a constant upper bound on that size")
+	n, bad := 0, 0
+	fromParam := func(v ssa.Value) bool {
+		seen := map[ssa.Value]bool{}
+		var walk func(v ssa.Value, d int) bool
+		walk = func(v ssa.Value, d int) bool {
+			if v == nil || d > 8 || seen[v] {
+				return false
+			}
+			seen[v] = true
+			switch x := v.(type) {
+			case *ssa.Parameter:
+				return isIntType(x.Type())
+			case *ssa.BinOp:
+				return walk(x.X, d+1) || walk(x.Y, d+1)
+			case *ssa.Convert:
+				return walk(x.X, d+1)
+			case *ssa.ChangeType:
+				return walk(x.X, d+1)
+			case *ssa.Phi:
+				for _, e := range x.Edges {
+					if walk(e, d+1) {
+						return true
+					}
+				}
+			case *ssa.UnOp:
+				if x.Op == token.SUB {
+					return walk(x.X, d+1)
+				}
+			}
+			return false
+		}
+		return walk(v, 0)
+	}
+	var fns []*ssa.Function
+	fns = append(fns, c.P.RepoFuncs(pkgExSrv)...)
+	for _, f := range c.P.RepoFuncs(pkgRedis) {
+		if inFramework(f) && fnPkgPath(f) == pkgRedis {
+			fns = append(fns, f)
+		}
+	}
+	for _, f := range fns {
+		if !inProd(f) || f.Blocks == nil {
+			continue
+		}
+		ord := 0
+		allInstrs(f, func(ins ssa.Instruction) {
+			var sizes []ssa.Value
+			switch x := ins.(type) {
+			case *ssa.MakeSlice:
+				sizes = []ssa.Value{x.Len, x.Cap}
+			case *ssa.MakeMap:
+				if x.Reserve != nil {
+					sizes = []ssa.Value{x.Reserve}
+				}
+			default:
+				return
+			}
+			for _, sz := range sizes {
+				if sz == nil || !fromParam(sz) {
+					continue
+				}
+				ord++
+				n++
+				key := fmt.Sprintf("%s/sized-by-parameter#%d", c.P.key(f), ord)
+				_, hi, _, hasHi := constBounds(sz, factsAt(ins.Block()), 0)
+				if hasHi && hi <= 1<<26 {
+					c.ok(rid, key, c.P.instrPos(ins), fmt.Sprintf("size <= %d", hi))
+				} else {
+					bad++
+					c.bad(rid, key, c.P.instrPos(ins), "an allocation is sized by an integer parameter with no constant upper bound dominating it: a client-supplied count of 2^43 ends the process with an out-of-memory error no recover can stop")
+				}
+			}
+		})
+	}
+	c.count("parameter-sized-allocations", n)
+	if bad == 0 {
+		c.ok(rid, "no-unbounded-client-sized-allocation", "", fmt.Sprintf("%d allocations sized by parameters, all bounded", n))
+	}
 }
